@@ -284,8 +284,9 @@ func genRetry(p proto, t *simrt.Tape, tier string) *ccCfg {
 		bound = T * time.Duration((int64(1)<<uint(cfg.tries))-1)
 	}
 	if cfg.tries < 0 && k == 0 {
-		// retries until cancelled
-		sp.ck = ctxKind(1 + t.Choose(2))
+		// retries until cancelled - or, with a context that can never end, until the client is closed
+		how := t.Choose(3)
+		sp.ck = ctxKind(1 + how%2)
 		exp := t.Choose(13)
 		at := T * time.Duration((int64(1)<<uint(exp))-1)
 		switch t.Weighted(2, 2, 1) {
@@ -296,11 +297,16 @@ func genRetry(p proto, t *simrt.Tape, tier string) *ccCfg {
 		}
 		sp.ctxAt = sp.startDelay + at
 		bound = at
+		if how == 2 {
+			sp.ck = ctxBackground
+			sp.ctxAt = 0
+			cfg.closeAt = sp.startDelay + at
+		}
 	} else if t.Coin(1, 8) && cfg.tries > 0 {
 		sp.ck = ctxKind(1 + t.Choose(2))
 		sp.ctxAt = time.Duration(t.Choose(int((bound+T)/(ms(1)/4)))) * (ms(1) / 4)
 	}
-	if cfg.tries < 0 && sp.ck == ctxBackground {
+	if cfg.tries < 0 && sp.ck == ctxBackground && cfg.closeAt < 0 {
 		// safety net: a planned acceptance may be rejected by a reject-first-n matcher
 		sp.ck = ctxCancelAt
 		sp.ctxAt = sp.startDelay + T*time.Duration((int64(1)<<uint(k+2))-1) + ms(1)/4
